@@ -296,8 +296,13 @@ def rule_blocks(repo):
     return res
 
 
+def rule_jlimit(repo):
+    from ..limits import rule_limit
+    return rule_limit(repo, 'C05.LIMIT', [(OP, 'so3_Jl'), (OP, 'so3_Jl_inv'), (OP, 'calcQ')], floor=6, decided_floor=6)
+
+
 def _rules_core(repo, tier):
-    return [rule_fwd(repo), rule_retr_add(repo), rule_jinv(repo), rule_clone(repo), rule_dt(repo), rule_adj(repo), rule_blocks(repo)] + rule_jr(repo)
+    return [rule_fwd(repo), rule_retr_add(repo), rule_jinv(repo), rule_clone(repo), rule_dt(repo), rule_adj(repo), rule_blocks(repo), rule_jlimit(repo)] + rule_jr(repo)
 
 
 def rules(repo, tier):
@@ -312,4 +317,4 @@ def rules(repo, tier):
                                                       'before it is complete - a later call with the same object and other contents must not be answered from it',
                                                       ['pypose.lietensor.lietensor', 'pypose.lietensor.operation', 'pypose.lietensor.basics', 'pypose.lietensor.utils'], floor=3),
             rule_optional(repo, 'C05.OPT', ['pypose.lietensor.lietensor', 'pypose.lietensor.operation', 'pypose.lietensor.basics', 'pypose.lietensor.utils'])] + mode_rules(repo, 'C05', ['pypose.lietensor.lietensor', 'pypose.lietensor.operation', 'pypose.lietensor.basics', 'pypose.lietensor.utils']) + [rule_callsig(repo, 'C05.SIG', ['pypose.lietensor.lietensor', 'pypose.lietensor.operation', 'pypose.lietensor.basics', 'pypose.lietensor.utils']), rule_docsig(repo, 'C05.DOC', ['pypose.lietensor.lietensor', 'pypose.lietensor.operation', 'pypose.lietensor.basics', 'pypose.lietensor.utils'])] + [
-            rule_axisdefault(repo, 'C05.AXDEF', ['pypose.lietensor.lietensor', 'pypose.lietensor.operation', 'pypose.lietensor.basics', 'pypose.lietensor.utils', 'pypose.lietensor.convert', 'pypose.basics.ops'])]
+            rule_axisdefault(repo, 'C05.AXDEF', ['pypose.lietensor.lietensor', 'pypose.lietensor.operation', 'pypose.lietensor.basics', 'pypose.lietensor.utils', 'pypose.lietensor.convert', 'pypose.basics.ops']), __import__('sa.axisdefault', fromlist=['x']).rule_frontaxis(repo, 'C05.BAX', ['pypose.lietensor.lietensor', 'pypose.lietensor.operation', 'pypose.lietensor.basics', 'pypose.lietensor.utils', 'pypose.lietensor.convert'])]
